@@ -89,11 +89,13 @@ def main():
                     for c in chars:
                         ctx.assume(z3.Or(*[c == a for a in alpha]))
                 return L.run_lexer(P, ctx, chars)
-            res = explore(run, max_paths=400000)
-            C.note_paths(res)
-            for i, r in enumerate(res):
+            def handle(i, r, chars=chars, k=k):
+                nonlocal n_tok
+                C.paths += 1
+                if r.kind == "unwind":
+                    C.inconclusive.append(f"unwinding bound hit: {r.value}")
                 if r.kind != "ok":
-                    continue      # panics are C01's obligations
+                    return      # panics are C01's obligations
                 I, src, out = r.value
                 C.note_interp(I)
                 ts, errs = out
@@ -146,6 +148,7 @@ def main():
                             model_desc=lambda m, chars=chars: repr(L.model_string(m, chars)))
                     if n_tok in (5, 50):
                         C.sample({"chars": k, "kind": kind, "start": st.v, "end": en.v, "obligation": "line/column fields == LF count / bytes since LF at start and end"})
+            explore(run, max_paths=2000000, on_result=handle)
     C.reach("tokens-examined", [z3.BoolVal(n_tok > 0)])
 
     # ---- (2) Position::merge on symbolic positions consistent w.r.t. monotone line/column functions
